@@ -1,3 +1,5 @@
 import FrappyProofs.Lemmas.Logging
+import FrappyProofs.Lemmas.Match
 import FrappyProofs.Lemmas.Rotate
+import FrappyProofs.Props.C11
 import FrappyProofs.Props.C20
